@@ -24,6 +24,8 @@ func c08(c *eng.Ctx, r *eng.Report) {
 		"R8.5/R8.6 the two tag parsers (Stream.readKind, raw.go readKind) keep the same case boundaries and the census of canonical-form guards (sentinel error, operator, constant) contains the reference set; " +
 		"R8.7 the encoder/decoder cache is keyed by the Go type together with its struct tags; R8.8 every function of decode.go that pulls a string payload from the stream itself (readFull/readByte) carries the single-byte canonical-form guard, header/size readers and Raw exempt by a reviewed table. " +
 		"R8.9 every comparison of a size with the short/long header boundary, in encoder and decoder alike, is equivalent to `size < 56`. " +
+		"R8.10 every string header the encoder writes (call of encodeStringHeader) is reached only on paths that excluded the single-byte form (`len != 1` or `b[0] > 0x7f`), or has a constant size other than 1 — the decoder rejects a one-byte string below 0x80 behind a header, so a writer without the guard produces encodings that do not decode; " +
+		"R8.11 willRead returns nil only on paths that charged the read to both budgets: the enclosing list's position (or no list is open) and the stream's remaining input limit (or the stream is unlimited). " +
 		"Not decided: round-trip equality and uniqueness of encodings for all values; the rest of the encoder."
 	r.Assume = []string{"reflect and io.Reader behave as documented"}
 	c08Alloc(c, r)
@@ -34,6 +36,8 @@ func c08(c *eng.Ctx, r *eng.Report) {
 	c08CacheKey(c, r)
 	c08PayloadReaders(c, r)
 	c08ShortLongBoundary(c, r)
+	c08EncoderSingleByte(c, r)
+	c08WillReadAccounting(c, r)
 }
 
 // payloadExempt: functions that pull bytes from the input without being the
@@ -624,4 +628,145 @@ func c08ShortLongBoundary(c *eng.Ctx, r *eng.Report) {
 		}
 	}
 	r.Check(n >= 6, rule, "boundary:sites", "", fmt.Sprintf("%d boundary comparisons", n), fmt.Sprintf("only %d comparisons with the 55/56 boundary found (headsize, puthead, encodeStringHeader, listEnd, both readKind, readSize expected)", n))
+}
+
+// c08EncoderSingleByte: the canonical form has exactly one encoding for a
+// one-byte string below 0x80 — the byte itself. encodeStringHeader writes a
+// header for any size, so each of its callers has to exclude that case first.
+func c08EncoderSingleByte(c *eng.Ctx, r *eng.Report) {
+	const rule = "R8.10"
+	r.Min(rule, 2)
+	hdr := c.Func(rlpPkg, "(*encbuf).encodeStringHeader")
+	if !r.Anchor(hdr != nil, rule, "(*encbuf).encodeStringHeader") {
+		return
+	}
+	n := 0
+	for _, fn := range c.PkgFuncs(rlpPkg) {
+		if c.IsTestFunc(fn) {
+			continue
+		}
+		i := 0
+		for _, s := range eng.Sites(fn) {
+			if s.Static() != hdr {
+				continue
+			}
+			n++
+			key := fmt.Sprintf("string-header:%s#%d", strings.TrimPrefix(eng.FuncName(fn), "storage/rlp."), i)
+			i++
+			if k, isK := eng.ConstInt(s.Common().Args[len(s.Common().Args)-1]); isK && k != 1 {
+				r.Check(true, rule, key, c.Pos(s.Pos()), fmt.Sprintf("constant size %d", k), "")
+				continue
+			}
+			// edges on which the single-byte form is excluded
+			cut := func(a *ssa.BasicBlock, succ int) bool {
+				iff, ok := a.Instrs[len(a.Instrs)-1].(*ssa.If)
+				if !ok {
+					return false
+				}
+				for _, cd := range eng.Conjuncts(iff.Cond, succ == 0, iff) {
+					m, ok := cd.Cmp()
+					if !ok {
+						continue
+					}
+					if k, isK := eng.ConstInt(m.X); isK {
+						m.X, m.Y, m.Op = m.Y, m.X, eng.Flip(m.Op)
+						_ = k
+					}
+					k, isK := eng.ConstInt(m.Y)
+					if !isK {
+						continue
+					}
+					d := eng.Desc(m.X)
+					isLen := strings.HasPrefix(d, "builtin:len(") || strings.HasSuffix(d, ".Len()") || strings.Contains(d, ").Len(")
+					switch {
+					case isLen && m.Op == token.NEQ && k == 1:
+						return true
+					case isLen && (m.Op == token.GTR && k >= 1 || m.Op == token.GEQ && k >= 2):
+						return true
+					case isLen && (m.Op == token.LSS && k <= 1 || m.Op == token.LEQ && k <= 0 || m.Op == token.EQL && k != 1):
+						return true
+					case !isLen && isByte(m.X.Type()) && (m.Op == token.GTR && k >= 0x7f || m.Op == token.GEQ && k >= 0x80):
+						return true
+					}
+				}
+				return false
+			}
+			open := eng.PathToAvoiding(fn, s.Instr, nil, cut)
+			r.Check(!open, rule, key, c.Pos(s.Pos()), "reached only after the single-byte form was excluded", fmt.Sprintf("%s writes a string header on a path that never excluded the single-byte form (`len == 1 && b[0] <= 0x7f`): a one-byte value below 0x80 is encoded as 0x81 b instead of b — two encodings of one value, and the decoder of this package rejects the longer one as non-canonical, so what the node encodes no longer decodes", eng.FuncName(fn)))
+		}
+	}
+	r.Check(n >= 2, rule, "string-header:sites", "", fmt.Sprintf("%d header writers", n), fmt.Sprintf("only %d callers of encodeStringHeader found (encodeString and writeString expected)", n))
+}
+
+func isByte(t types.Type) bool {
+	b, ok := t.Underlying().(*types.Basic)
+	return ok && (b.Kind() == types.Uint8 || b.Kind() == types.Byte)
+}
+
+// c08WillReadAccounting: willRead is the one place where a read is charged to
+// the enclosing list and to the input limit. A path that returns nil without
+// charging one of them lets an element run past its list (sibling data is read
+// as payload) or lets a limited stream allocate beyond its input.
+func c08WillReadAccounting(c *eng.Ctx, r *eng.Report) {
+	const rule = "R8.11"
+	r.Min(rule, 2)
+	fn := c.Func(rlpPkg, "(*Stream).willRead")
+	if !r.Anchor(fn != nil, rule, "(*Stream).willRead") {
+		return
+	}
+	type budget struct {
+		name, field, exemptField string
+		exemptTrue               bool // which outcome of the exempting test means "nothing to charge"
+	}
+	for _, bd := range []budget{
+		{"input-limit", "remaining", "limited", false},
+		{"list-position", "pos", "stack", false},
+	} {
+		isStore := func(in ssa.Instruction) bool {
+			st, ok := in.(*ssa.Store)
+			if !ok {
+				return false
+			}
+			_, f := eng.FieldOf(st.Addr)
+			if f != bd.field {
+				return false
+			}
+			bo, ok := st.Val.(*ssa.BinOp)
+			return ok && (bo.Op == token.SUB || bo.Op == token.ADD)
+		}
+		cut := func(a *ssa.BasicBlock, succ int) bool {
+			iff, ok := a.Instrs[len(a.Instrs)-1].(*ssa.If)
+			if !ok {
+				return false
+			}
+			for _, cd := range eng.Conjuncts(iff.Cond, succ == 0, iff) {
+				d := eng.Desc(cd.V)
+				switch bd.exemptField {
+				case "limited":
+					if strings.HasSuffix(d, ".limited") && !cd.True {
+						return true
+					}
+				case "stack":
+					if m, ok := cd.Cmp(); ok && strings.Contains(eng.Desc(m.X), ".stack") {
+						if k, isK := eng.ConstInt(m.Y); isK && (m.Op == token.LEQ && k == 0 || m.Op == token.EQL && k == 0 || m.Op == token.LSS && k == 1) {
+							return true
+						}
+					}
+				}
+			}
+			return false
+		}
+		bad := ""
+		nret := 0
+		for _, re := range eng.Returns(fn) {
+			if !eng.IsNilConst(re.Incoming(0)) {
+				continue
+			}
+			nret++
+			if eng.PathToAvoiding(fn, re.Ret, isStore, cut) {
+				bad = c.Pos(re.Ret.Pos())
+			}
+		}
+		r.Check(bad == "" && nret > 0, rule, "willRead:"+bd.name, c.Pos(fn.Pos()), "every nil return charged the "+bd.name+" budget (or it does not apply)", fmt.Sprintf("(*Stream).willRead can return nil at %s on a path that neither updated s.%s nor established that the budget does not apply: the read is not charged to the %s, so a crafted element may claim more bytes than its enclosing list or the input limit holds and the decoder reads/allocates past them instead of failing with the canonical error", bad, bd.field, bd.name))
+	}
 }
